@@ -1,4 +1,4 @@
-// Shared store builder of the C04/C16 harnesses (the file is duplicated in harness/c04 and harness/c16):
+// Store builder of the C16 harness (a copy of harness/c04's, plus PartSpec.Split: one Write call per chunk):
 // partitions with a prescribed chunk layout on an in-process server.
 package main
 
@@ -29,6 +29,12 @@ const WhereA = `WHERE msg CONTAINS "a;"`
 type PartSpec struct {
 	Tags   string `json:"tags"`
 	Chunks [][]Ev `json:"chunks"`
+	// Split: one Write call per chunk instead of one for the whole partition. The time index takes the hull of a chunk
+	// from the batches written to it; a batch that spans several chunks gives every one of them the hull of the whole
+	// batch, so that the chunk selector of RANGE queries never rejects a chunk. With one batch per chunk the hulls are
+	// exact, chunks outside the RANGE are rejected (window MaxUint32..MaxUint32) and getPosForward / getPosBackward walk
+	// over them.
+	Split bool `json:"split,omitempty"`
 }
 
 // ChunkInfo is the layout actually produced
@@ -90,19 +96,34 @@ func buildStore(srv *Server, parts []PartSpec) ([]PartLayout, error) {
 	res := make([]PartLayout, len(parts))
 	for pi, p := range parts {
 		var evs []*api.LogEvent
+		flush := func() error {
+			if len(evs) == 0 {
+				return nil
+			}
+			var wr api.WriteResult
+			if err := srv.Client.Write(ctx, p.Tags, "", evs, &wr); err != nil {
+				return fmt.Errorf("write: %v", err)
+			}
+			if wr.Err != nil {
+				return fmt.Errorf("write result: %v", wr.Err)
+			}
+			evs = nil
+			return nil
+		}
 		for ci, ch := range p.Chunks {
 			for ei, e := range ch {
 				big := ei == len(ch)-1 && ci < len(p.Chunks)-1
 				evs = append(evs, &api.LogEvent{Timestamp: e.Ts, Message: msgOf(e.Id, e.A, big)})
 				res[pi].Evs = append(res[pi].Evs, e)
 			}
+			if p.Split {
+				if err := flush(); err != nil {
+					return nil, err
+				}
+			}
 		}
-		var wr api.WriteResult
-		if err := srv.Client.Write(ctx, p.Tags, "", evs, &wr); err != nil {
-			return nil, fmt.Errorf("write: %v", err)
-		}
-		if wr.Err != nil {
-			return nil, fmt.Errorf("write result: %v", wr.Err)
+		if err := flush(); err != nil {
+			return nil, err
 		}
 	}
 	// wait for the flush: every partition must report its full record count
